@@ -17,8 +17,10 @@ import (
 	"sync"
 	"time"
 
+	ipldprime "github.com/ipld/go-ipld-prime"
 	"github.com/ipld/go-ipld-prime/datamodel"
 	"github.com/ipld/go-ipld-prime/node/basicnode"
+	ipldschema "github.com/ipld/go-ipld-prime/schema"
 	"github.com/multiformats/go-varint"
 	"github.com/storacha/go-ucanto/core/dag/blockstore"
 	"github.com/storacha/go-ucanto/core/delegation"
@@ -464,17 +466,18 @@ type CtxSpec struct {
 }
 
 type World struct {
-	ID     int
-	Kind   string // generator label (for statistics)
-	Cast   *Cast
-	Can    string // the descriptor's ability
-	Specs  []*TokSpec
-	Inv    string
-	Ctx    CtxSpec
-	built  map[string]*Built
-	order  []string
-	linkID map[string]int
-	links  []string
+	StructReader bool // caveats are read with core/schema.Struct (renamed fields) instead of the hand-written reader
+	ID           int
+	Kind         string // generator label (for statistics)
+	Cast         *Cast
+	Can          string // the descriptor's ability
+	Specs        []*TokSpec
+	Inv          string
+	Ctx          CtxSpec
+	built        map[string]*Built
+	order        []string
+	linkID       map[string]int
+	links        []string
 }
 
 func (w *World) lid(l ipld.Link) int {
@@ -581,6 +584,19 @@ func tamper(d delegation.Delegation, sp *TokSpec) (delegation.Delegation, error)
 			att[0].With += "#tampered"
 		}
 		m.Att = att
+	case "nbf0":
+		// an absent not-before becomes present with the value 0 (or a present one changes)
+		z := 0
+		if m.Nbf != nil {
+			z = *m.Nbf + 1
+		}
+		m.Nbf = &z
+	case "nnc0":
+		e := ""
+		if m.Nnc != nil {
+			e = *m.Nnc + "x"
+		}
+		m.Nnc = &e
 	case "exp":
 		e := farFuture + 1
 		m.Exp = &e
@@ -775,8 +791,61 @@ func (w *World) parser(obs *Obs) validator.PrincipalParserFunc {
 	}
 }
 
+// structCavReader reads the same caveats through the library's own schema reader (core/schema.Struct over an IPLD
+// schema whose fields are RENAMED in the representation), then converts to Cav: the validator's guarantees must not
+// depend on which reader a capability uses.  (The nullable field `orig` is left to cavReader.)
+type cavModel struct {
+	Lnk *datamodel.Link
+	Mx  *int64
+	Tg  *string
+	Tgs []string
+	Hd  *struct {
+		Keys   []string
+		Values map[string]string
+	}
+}
+
+var cavModelType = func() ipldschema.Type {
+	ts, err := ipldprime.LoadSchemaBytes([]byte(`type CavModel struct {
+  lnk optional Link (rename "link")
+  mx optional Int (rename "max")
+  tg optional String (rename "tag")
+  tgs optional [String] (rename "tags")
+  hd optional {String:String} (rename "hdr")
+}
+`))
+	if err != nil {
+		panic(err)
+	}
+	return ts.TypeByName("CavModel")
+}()
+
+type structCavReader struct{}
+
+func (structCavReader) Read(input any) (Cav, failure.Failure) {
+	m, err := schema.Struct[cavModel](cavModelType, nil).Read(input)
+	if err != nil {
+		return Cav{}, err
+	}
+	c := Cav{Max: m.Mx, Tag: m.Tg, Tags: m.Tgs}
+	if m.Lnk != nil {
+		c.Link = *m.Lnk
+	}
+	if m.Hd != nil {
+		c.Hdr = map[string]string{}
+		for _, k := range m.Hd.Keys {
+			c.Hdr[k] = m.Hd.Values[k]
+		}
+	}
+	return c, nil
+}
+
 func (w *World) descriptor(obs *Obs) validator.CapabilityParser[Cav] {
-	return validator.NewCapability[Cav](w.Can, withReader{}, cavReader{},
+	var nbReader schema.Reader[any, Cav] = cavReader{}
+	if w.StructReader {
+		nbReader = structCavReader{}
+	}
+	return validator.NewCapability[Cav](w.Can, withReader{}, nbReader,
 		func(claimed, delegated ucan.Capability[Cav]) failure.Failure {
 			ok := stdDerives(claimed, delegated)
 			obs.mu.Lock()
